@@ -1,6 +1,7 @@
 /- airdkg sub-driver: the airgapped machine's key-generation handlers (`Model/AirDkg.lean`) over `Fr`; see harness/airdkg.go -/
 import Driver.AlgDriver
 import Dc4bcVerif.Model.AirDkg
+import Dc4bcVerif.Model.AirReinit
 
 namespace Driver
 open Dc4bcVerif.Model Dc4bcVerif.Model.AirDkg
@@ -11,6 +12,8 @@ abbrev AM := Machine Fr Nat
 
 structure AirDkgSt where
   ms : List (Nat × AM) := []
+  /-- per machine: what it was handed so far, newest first, in the terms of a re-initialisation payload (`reinit … from …`) -/
+  hist : List (Nat × List (Inner Fr Nat)) := []
 
 abbrev P := StateT (List String) Option
 
@@ -80,7 +83,15 @@ def showRes (m : AM) (round : String) (r : Res Fr) : String :=
     s!"masterkey pid={pid} key={k} share={share} poly=" ++ ",".intercalate (poly.map frHex)
 
 def getM (s : AirDkgSt) (m : Nat) : Option AM := (s.ms.find? (·.1 == m)).map (·.2)
-def setM (s : AirDkgSt) (m : Nat) (v : AM) : AirDkgSt := { ms := (m, v) :: s.ms.filter (·.1 != m) }
+def setM (s : AirDkgSt) (m : Nat) (v : AM) : AirDkgSt := { s with ms := (m, v) :: s.ms.filter (·.1 != m) }
+def getH (s : AirDkgSt) (m : Nat) : List (Inner Fr Nat) := ((s.hist.find? (·.1 == m)).map (·.2)).getD []
+def pushH (s : AirDkgSt) (m : Nat) (e : Inner Fr Nat) : AirDkgSt := { s with hist := (m, e :: getH s m) :: s.hist.filter (·.1 != m) }
+
+def showReinit (r : ReinitRes Fr) : String :=
+  match r with
+  | .fatal => "fatal"
+  | .errorResult pid => s!"err pid={pid}"
+  | .processed poly => "processed poly=" ++ ",".intercalate (poly.map frHex)
 
 def runP {α : Type} (p : P α) (toks : List String) : Option α :=
   match p.run toks with
@@ -97,6 +108,24 @@ def airDkgStep (s : AirDkgSt) (toks : List String) : AirDkgSt × String :=
     match m.toNat? >>= getM s with
     | some v => (setM s m.toNat! (stop v), "ok")
     | none => (s, "bad-op")
+  | ["innerskip", m] =>
+    match m.toNat? with
+    | some mi => (pushH s mi .skip, "ok")
+    | none => (s, "bad-op")
+  | ["reinit", m, round, "from", sh] =>
+    match m.toNat?, parseStr round, sh.toNat? with
+    | some mi, some round, some si =>
+      match getM s mi with
+      | none => (s, "bad-op")
+      | some v =>
+        let x := reinitOp v round (getH s si).reverse
+        (setM s mi x.1, showReinit x.2)
+    | _, _, _ => (s, "bad-op")
+  | ["ring", m, round] =>
+    match m.toNat? >>= getM s, parseStr round with
+    | some v, some round =>
+      (s, "share=" ++ (match lookup round v.rings with | some kr => frHex kr.share | none => "-"))
+    | _, _ => (s, "bad-op")
   | op :: m :: round :: rest =>
     match m.toNat?, parseStr round with
     | some mi, some round =>
@@ -104,22 +133,23 @@ def airDkgStep (s : AirDkgSt) (toks : List String) : AirDkgSt × String :=
       | none => (s, "bad-op")
       | some v =>
         let fin (x : AM × Res Fr) : AirDkgSt × String := (setM s mi x.1, showRes x.1 round x.2)
+        let finH (e : Inner Fr Nat) (x : AM × Res Fr) : AirDkgSt × String := (pushH (setM s mi x.1) mi e, showRes x.1 round x.2)
         match op with
-        | "badpayload" => fin (v, .err)
+        | "badpayload" => finH (.failing round) (v, .err)
         | "sign" =>
           match rest with
           | [ok, n] =>
             let msgs : Option Nat := if n == "-" then none else n.toNat?
             if n != "-" && msgs.isNone then (s, "bad-op") else
-            fin (signOp v round (ok == "1") msgs)
+            finH (.sign round (ok == "1") msgs) (signOp v round (ok == "1") msgs)
           | _ => (s, "bad-op")
         | "commits" =>
           match runP (do let es ← pList pKeyEntry; let poly ← pList pFr; pure (es, poly)) rest with
-          | some (es, poly) => fin (commitsOp v round es poly)
+          | some (es, poly) => finH (.kg (.commits round es poly)) (commitsOp v round es poly)
           | none => (s, "bad-op")
         | "deals" =>
           match runP (pList (do let n ← pStr; let cs ← pOpt (pList pFr); pure (n, cs))) rest with
-          | some es => fin (dealsOp v round es)
+          | some es => finH (.kg (.deals round es)) (dealsOp v round es)
           | none => (s, "bad-op")
         | "responses" =>
           match runP (pList (do let pid ← pInt; let n ← pStr; let d ← pOpt pOuter; pure (pid, n, d))) rest with
@@ -128,7 +158,7 @@ def airDkgStep (s : AirDkgSt) (toks : List String) : AirDkgSt × String :=
             let ord := match lookup round v.insts with
               | some i => (dealNames (storeDeals i es).1)
               | none => []
-            fin (responsesOp v round es ord)
+            finH (.kg (.responses round es ord)) (responsesOp v round es ord)
           | none => (s, "bad-op")
         | "masterkey" =>
           match runP (pList (do let n ← pStr; let rs ← pOpt (pList pResp); pure (n, rs))) rest with
@@ -136,7 +166,7 @@ def airDkgStep (s : AirDkgSt) (toks : List String) : AirDkgSt × String :=
             let ord := match lookup round v.insts with
               | some i => (storeIdxs (storeResponses i es).1)
               | none => []
-            fin (masterKeyOp v round es ord)
+            finH (.kg (.masterKey round es ord)) (masterKeyOp v round es ord)
           | none => (s, "bad-op")
         | _ => (s, "bad-op")
     | _, _ => (s, "bad-op")
